@@ -115,6 +115,7 @@ type frame struct {
 	panicking        bool
 	panic            interface{}
 	phitemps         []value // temporaries for parallel phi assignment
+	watched          bool    // fn is under wrap-around watch
 }
 
 func (fr *frame) get(key ssa.Value) value {
@@ -203,9 +204,15 @@ func visitInstr(fr *frame, instr ssa.Instruction) continuation {
 		// no-op
 
 	case *ssa.UnOp:
+		if fr.i.p.watch != nil {
+			fr.i.p.watchHere = fr.watched
+		}
 		fr.env[instr] = fr.i.unopS(instr, fr.get(instr.X))
 
 	case *ssa.BinOp:
+		if fr.i.p.watch != nil {
+			fr.i.p.watchHere = fr.watched
+		}
 		fr.env[instr] = fr.i.binopS(instr.Op, instr.X.Type(), fr.get(instr.X), fr.get(instr.Y))
 
 	case *ssa.Call:
@@ -569,6 +576,7 @@ func callSSA(i *interpreter, caller *frame, callpos token.Pos, fn *ssa.Function,
 	if i.P.isTarget(fn) {
 		i.p.funcs[fn.String()] = true
 		if i.p.watch != nil && i.p.watch[fn.String()] {
+			fr.watched = true
 			i.p.watching++
 			defer func() {
 				i.p.watching--
